@@ -4,7 +4,7 @@
    Part C: the per-class rules of round 1 (still true, now subsumed by part A). *)
 From Coq Require Import ZArith QArith Qround Bool List.
 Require Import QV.C07.Model QV.C07.Spec QV.C07.Wf QV.C07.ProofsRange QV.C07.ProofsLoop QV.C07.ProofsAtoms
-               QV.C07.ProofsDur QV.C07.ProofsInt QV.C07.ProofsIni QV.C07.ProofsFin QV.C07.ProofsWit.
+               QV.C07.ProofsDur QV.C07.ProofsInt QV.C07.ProofsEnds QV.C07.ProofsIni QV.C07.ProofsFin QV.C07.ProofsWit.
 Import ListNotations.
 Open Scope Q_scope.
 
@@ -70,6 +70,13 @@ Theorem C07_initial_refuted : exists p rho pcs c e x v,
   eval rho e = Some v /\ ~ v == x /\ guard_C07_initial_head p rho = false.
 Proof. exact initial_refuted. Qed.
 Print Assumptions C07_initial_refuted.
+
+(* the atom part of that guard is exact: on a table channel (entries L after the point prev) `head_ok` holds IFF the
+   denoted voltage at time 0+ is the first entry's value v0 *)
+Theorem C07_initial_head_guard_exact : forall v0 L prev,
+  head_ok v0 prev L = true <-> f_at0 (FSegs (segs_of prev L) (snd (last_tv L prev))) == v0.
+Proof. exact head_ok_exact. Qed.
+Print Assumptions C07_initial_head_guard_exact.
 
 (* finding final-tail-empty: ConstantPT(1, {'A': 1}) @ ConstantPT(0, {'A': 5}) — final_values 5, ends on 1 *)
 Theorem C07_final_tail_refuted : exists p rho pcs c e x v,
